@@ -978,6 +978,11 @@ def forcing_steps(
     for t in all_frames:
         steps.append(timer.time2step(t))
 
+    # The time interpolation needs at most one forcing time per model step
+    if len(set(steps)) < len(steps):
+        logger.critical("Several forcing times within one time step")
+        raise SystemExit(3)
+
     file_idx = dict()  # mapping step -> file name
     frame_idx = dict()  # mapping step -> record number in file
     step_counter = -1
